@@ -300,3 +300,33 @@ sub('statistics/vectorEstimator/normal.go','''  // initialize estimator
   }
 ''')
 # named parameter installed through its own setter, value held in a renamed local (already renamed above: fs)
+# --- parameter renames (the symbolic checks bind parameters by position) ---
+import re
+def rename_in_func(f, header_re, old, new):
+    p=D+'/'+f; s=open(p).read()
+    m=re.search(header_re, s)
+    if not m:
+        print('benign_edits: function not found', f, header_re); sys.exit(2)
+    a=m.start()
+    # function ends at the next line that starts with "}" in column 0
+    b=s.index('\n}\n', a)+3
+    body=s[a:b]
+    body2=re.sub(r'\b'+re.escape(old)+r'\b', new, body)
+    if body2==body:
+        print('benign_edits: nothing renamed', f, old); sys.exit(2)
+    open(p,'w').write(s[:a]+body2+s[b:])
+rename_in_func('statistics/generic/mixture_em.go', r'func \(obj \*Mixture\) EmStep\(', 'meta', 'obsWeights')
+rename_in_func('statistics/scalarEstimator/normal.go', r'func \(obj \*NormalEstimator\) NewObservation\(', 'gamma', 'lw')
+rename_in_func('statistics/scalarEstimator/normal.go', r'func NewNormalEstimator\(', 'sigmaMin', 'minSd')
+rename_in_func('statistics/scalarDistribution/normal.go', r'func NewNormalDistribution\(', 'sigma', 'sd')
+rename_in_func('algorithm/gaussJordan/gaussJordan.go', r'func gaussJordan\(', 'submatrix', 'active')
+rename_in_func('statistics/generic/hmm.go', r'func \(obj \*Hmm\) Posterior\(', 'states', 'sets')
+rename_in_func('algorithm/cholesky/cholesky_generic.go', r'func cholesky_ldl\(', 'D', 'Dg')
+rename_in_func('algorithm/bfgs/bfgs.go', r'func bfgs\(', 'epsilon', 'tol')
+rename_in_func('algorithm/newton/newton.go', r'func newton_root\(', 'constraints', 'feasible')
+rename_in_func('vector_sparse_float64_math.go', r'func \(r \*SparseFloat64Vector\) VADDV\(', 'a', 'u')
+rename_in_func('matrix_dense_float64.go', r'func \(matrix \*DenseFloat64Matrix\) index\(', 'i', 'row')
+rename_in_func('statistics/generic/hmm_baumWelch.go', r'func \(obj \*Hmm\) BaumWelchStep\(', 'tmp', 'scratch')
+rename_in_func('scalar_real64_math.go', r'func \(c \*Real64\) Erfc\(', 'a', 'arg')
+rename_in_func('avl-tree.go', r'func \(obj \*AvlNode\) rotateLL\(', 'obj', 'node')
+rename_in_func('algorithm/rprop/rprop.go', r'func rprop\(', 'step_init', 'step0')
